@@ -117,6 +117,71 @@ def _pos_divisor(ctx, b):
     return t
 
 
+def _pow256(c):
+    j = 0
+    while c > 1:
+        if c % 256:
+            return None
+        c //= 256
+        j += 1
+    return j
+
+
+def is_byte_term(ctx, e):
+    if isinstance(e, int):
+        return 0 <= e <= 255
+    if z3.is_int_value(e):
+        return 0 <= e.as_long() <= 255
+    if e.get_id() in ctx.byte_terms:
+        return True
+    if z3.is_app_of(e, z3.Z3_OP_MOD) and z3.is_int_value(e.arg(1)) and 0 < e.arg(1).as_long() <= 256:
+        return True
+    return False
+
+
+def bytesum_digits(ctx, t):
+    """little-endian digit list [d_0, d_1, ...] if t is syntactically sum(d_i * 256^i) with byte-valued d_i"""
+    t = z3.simplify(t)
+    if z3.is_int_value(t):
+        return None
+    terms = list(t.children()) if z3.is_app_of(t, z3.Z3_OP_ADD) else [t]
+    digits = {}
+    for x in terms:
+        coef, e = 1, x
+        if z3.is_int_value(x):
+            v = x.as_long()
+            if v < 0:
+                return None
+            j = 0
+            while v:
+                if j in digits:
+                    return None
+                digits[j] = v % 256
+                v //= 256
+                j += 1
+            continue
+        if z3.is_app_of(x, z3.Z3_OP_MUL) and x.num_args() == 2 and z3.is_int_value(x.arg(0)):
+            coef, e = x.arg(0).as_long(), x.arg(1)
+        j = _pow256(coef) if coef >= 1 else None
+        if j is None or j in digits or not is_byte_term(ctx, e):
+            return None
+        digits[j] = e
+    if not digits or (len(terms) == 1 and 0 in digits and not z3.is_app_of(t, z3.Z3_OP_ADD) and len(digits) == 1
+                      and not (t.get_id() in ctx.byte_terms)):
+        # a lone byte term is its own single digit only if registered as a byte
+        if not digits:
+            return None
+    n = max(digits) + 1
+    return [digits.get(i, 0) for i in range(n)]
+
+
+def digits_value(digits):
+    r = z3.IntVal(0)
+    for i, d in enumerate(digits):
+        r = r + (z3.IntVal(d) if isinstance(d, int) else d) * z3.IntVal(256 ** i)
+    return r
+
+
 def _div(t, d):
     """floor division by a positive divisor; (x div c1) div c2 is normalised to x div (c1*c2)"""
     if z3.is_int_value(d) and z3.is_app_of(t, z3.Z3_OP_IDIV) and z3.is_int_value(t.arg(1)) and t.arg(1).as_long() > 0:
@@ -136,6 +201,22 @@ def int_binop(ctx, op, a, b):
         return wrap_int(ta - tb)
     if op == 'Mult':
         return wrap_int(ta * tb)
+    if op in ('FloorDiv', 'Mod', 'RShift', 'BitAnd') and isinstance(b, int) and not isinstance(a, int):
+        # cutting whole bytes out of a value that is syntactically a sum of bytes: digit selection, no division needed
+        k = None
+        if op == 'RShift' and b >= 0 and b % 8 == 0:
+            k = ('hi', b // 8)
+        elif op == 'FloorDiv' and b > 0 and _pow256(b) is not None:
+            k = ('hi', _pow256(b))
+        elif op == 'Mod' and b > 0 and _pow256(b) is not None:
+            k = ('lo', _pow256(b))
+        elif op == 'BitAnd' and b >= 0 and _is_pow2(b + 1) and _pow256(b + 1) is not None:
+            k = ('lo', _pow256(b + 1))
+        if k is not None:
+            digits = bytesum_digits(ctx, ta)
+            if digits is not None:
+                part = digits[k[1]:] if k[0] == 'hi' else digits[:k[1]]
+                return wrap_int(digits_value(part))
     if op == 'FloorDiv':
         d = _pos_divisor(ctx, b)
         return wrap_int(_div(ta, d))
